@@ -356,6 +356,83 @@ pub fn c11(thorough: bool, replay: Option<String>) -> i32 {
             }
         }
     });
+    // file-to-file histories: the output path may already hold something (the output of an earlier version of the
+    // source, the up-to-date output, garbage), older than / as old as / newer than the source. Whenever the source is
+    // not older than the output, compile_clvm must leave the program of the CURRENT source there.
+    {
+        let twins: Vec<(&str, &str)> = vec![
+            ("", "(defun F (X) (+ X @K@)) (c (F A) A)"),
+            ("(include *standard-cl-21*) ", "(defun F (X) (+ X @K@)) (c (F A) A)"),
+            ("(include *standard-cl-23*) ", "(defun-inline F (X) (+ X @K@)) (c (F A) A)"),
+            ("(include *standard-cl-24*) ", "(defconst K (+ 1 @K@)) (c (+ K A) A)"),
+        ];
+        let mut plan: Vec<(usize, &str, i64)> = vec![];
+        for t in 0..twins.len() {
+            for prior in ["absent", "output-of-the-previous-version", "up-to-date-output", "garbage"] {
+                for rel in [-10i64, 0, 10] {
+                    plan.push((t, prior, rel));
+                }
+            }
+        }
+        let n2 = plan.len() as u64;
+        let (st2, capped2) = par_range(n2, 1, cap, || tmpdir("c11h"), |scratch, st, i| {
+            st.eval();
+            let (t, prior, rel) = plan[i as usize];
+            let mk = |k: &str| format!("(mod (A) {}{})", twins[t].0, twins[t].1.replace("@K@", k));
+            let (v1, v2) = (mk("5"), mk("7"));
+            let want = match library_compile(&v2, &[], true) {
+                Ok(c) => c.code,
+                Err(_) => return,
+            };
+            let old = match library_compile(&v1, &[], true) {
+                Ok(c) => c.code,
+                Err(_) => return,
+            };
+            let inp = format!("{}/h.clsp", scratch);
+            let outp = format!("{}/h.clsp.hex", scratch);
+            let _ = std::fs::remove_file(&outp);
+            std::fs::write(&inp, &v2).expect("write source");
+            match prior {
+                "absent" => {}
+                "output-of-the-previous-version" => std::fs::write(&outp, format!("{}\n", old.hex())).expect("write out"),
+                "up-to-date-output" => std::fs::write(&outp, format!("{}\n", want.hex())).expect("write out"),
+                _ => std::fs::write(&outp, "zz not hex\n").expect("write out"),
+            }
+            // source mtime fixed; output mtime = source mtime - rel seconds (rel > 0: the source is NEWER than the output)
+            let base = std::time::SystemTime::UNIX_EPOCH + Duration::from_secs(1_700_000_000);
+            let set = |p: &str, t: std::time::SystemTime| {
+                if let Ok(f) = std::fs::File::options().write(true).open(p) {
+                    let _ = f.set_modified(t);
+                }
+            };
+            set(&inp, base);
+            if prior != "absent" {
+                set(&outp, if rel >= 0 { base - Duration::from_secs(rel as u64) } else { base + Duration::from_secs((-rel) as u64) });
+            }
+            let (i2, o2) = (inp.clone(), outp.clone());
+            let r = catch(std::panic::AssertUnwindSafe(move || {
+                let mut syms = HashMap::new();
+                compile_clvm(&i2, &o2, &[], &mut syms)
+            }));
+            let got = std::fs::read_to_string(&outp).ok().map(|s| s.trim().to_string());
+            let replay = json!({"kind": "c11-history", "source": v2, "previous_source": v1, "prior_output": prior, "source_mtime_minus_output_mtime_s": rel});
+            let must_be_current = prior == "absent" || rel >= 0;
+            let ok_call = matches!(r, Ok(Ok(_)));
+            if !must_be_current {
+                st.outcome("source-older-than-output(skip permitted, no claim)");
+                return;
+            }
+            if ok_call && got.as_deref() == Some(want.hex().as_str()) {
+                st.outcome(&format!("current-program-written/{}", prior));
+                st.nontrivial(&(t, prior, rel));
+                st.sample(json!({"source": v2, "prior_output": prior, "source_mtime_minus_output_mtime_s": rel}));
+            } else {
+                st.violation(&format!("file-to-file/stale-or-wrong-output/{}/{}", prior, if rel == 0 { "equal-mtimes" } else { "source-newer" }), format!("{} with the output path holding {} and the source {} s newer than it: compile_clvm returned {:?} and the output path holds {:?}, the current source compiles to {}", v2, prior, rel, r.map(|x| x.map(|_| ())), got.map(|g| g.chars().take(40).collect::<String>()), want.hex().chars().take(40).collect::<String>()), v2.len(), replay);
+            }
+        });
+        sweep_tmp("vmc-c11h");
+        rep.add_sub("file-to-file-histories", "4 programs (classic, cl21, cl23, cl24) x output path {absent, output of the previous version of the source, up-to-date output, garbage} x source mtime {10 s older, equal, 10 s newer} than the output: compile_clvm must leave the current source's program whenever the source is not older than the output", n2, true, capped2, st2);
+    }
     let _ = std::fs::remove_dir_all(&incroot);
     sweep_tmp("vmc-c11");
     rep.add_sub("entry-points", &format!("{} programs: generated (7 sigil settings), include-using (3 shapes x 7), shipped", n), n, true, capped, st);
